@@ -312,6 +312,10 @@ fn deliver_checked<M: Machine>(fw: &mut FWorld<M>, dst: u16, stream: usize, styl
         idx[1].iter().map(|&i| fw.w.tapes[1][i as usize]).collect(),
     ];
     let pre = fw.w.get(dst).unwrap().st.clone();
+    if NEIGHBOUR.with(|n| n.get()) {
+        neighbour_tenant(M::FLT, [&recs[0], &recs[1]]);
+        stats.inc("deliveries_with_a_neighbour_tenant");
+    }
     let out = {
         let slot = fw.w.slots[dst as usize].as_mut().unwrap();
         M::deliver(&mut slot.st, style, stream, [&recs[0], &recs[1]])
@@ -889,7 +893,7 @@ pub fn generate<M: Machine>(property: &str, verif_seed: u64, run: u64, mode: Mod
         verif_seed,
         run_index: run,
         exact_data: false,
-        isolated: false,
+        isolated: run % 64 == 0,
         tapes,
         events: Vec::new(),
         knobs: json!({"fault_rate": fault_rate, "fault_kinds": kinds, "workers": n_workers, "mode": format!("{:?}", mode)}),
